@@ -360,7 +360,10 @@ def compare(case, got, exp, mode):
     if k == 'inplace':
         f = got['flags']
         valid = (not case['inplace']) or f['individual'] or f['quadratic'] or f['dc']
-        if valid and not got['ok']:
+        # a polynomial propagator that gives up ("maximum ... expansion limit reached") is the permitted outcome of
+        # C16 (converge or raise), not a refusal of an incompatible request
+        gave_up = got.get('raised') == 'RuntimeError' and 'expansion limit' in (got.get('msg') or '')
+        if valid and not got['ok'] and not gave_up:
             bad.append('time_evolve(inplace=%s) on %s raised %s' % (case['inplace'], case['cls'], got.get('raised')))
         if not valid and got['ok']:
             bad.append('unsupported in-place evolution (%s) was answered' % case['cls'])
